@@ -300,26 +300,24 @@ Theorem msr_read_v2_batches bs fuel min :
 Proof.
   intros Hne H Hfuel. destruct bs as [|b more]; [contradiction|].
   apply Forall_cons_iff in H as [Hb Hmore].
+  assert (Hex : exists r1 rs1, b_recs b = r1 :: rs1).
+  { destruct Hb as [_ Hn]. destruct (b_recs b) as [|r1 rs1]; [contradiction|eauto]. }
+  destruct Hex as (r1 & rs1 & Hrs1).
+  assert (Hout : outs (b :: more) = out_rec b r1 :: map (out_rec b) rs1 ++ outs more).
+  { unfold outs. cbn [flat_map]. rewrite Hrs1. reflexivity. }
+  rewrite Hout in *. cbn [length] in Hfuel. rewrite app_length, map_length in Hfuel.
   unfold msr_read. unfold batches_bytes. cbn [map concat]. fold (batches_bytes more).
   rewrite m_read_header_enc by exact Hb.
-  destruct (b_recs b) as [|r1 rs1] eqn:Hrs1; [destruct Hb as [_ Hn]; contradiction|].
-  cbn [outs flat_map] in *. rewrite Hrs1 in *. cbn [map app length] in Hfuel. rewrite app_length, map_length in Hfuel.
+  change {| f_bs := batch_payload comp b ++ batches_bytes more; f_base := 0; f_count := zlen (b_recs b); f_hdr := hdr_of b |}
+    with (frameF0 b more).
   destruct fuel as [|fuel]; [lia|]. cbn [m_run].
-  fold (frameF0 b more).
   assert (Hn : m_next decomp (S fuel) [frameF0 b more] min = m_v2 decomp [frameF0 b more]).
   { unfold m_next, frameF0. unfold m_read_header at 1. cbn [f_count].
     assert (0 < zlen (b_recs b)) by (rewrite Hrs1, zlen_cons; pose proof (zlen_nonneg rs1); lia).
     destruct (Z.ltb_spec 0 (zlen (b_recs b))); [|lia].
     cbn [f_hdr hdr_of h_magic]. change (2 =? 2) with true. cbv iota. reflexivity. }
-  unfold frameF0 in Hn. rewrite Hrs1 in Hn.
-  change {| f_bs := batch_payload comp b ++ batches_bytes more; f_base := 0; f_count := zlen (r1 :: rs1); f_hdr := hdr_of b |}
-    with {| f_bs := batch_payload comp b ++ batches_bytes more; f_base := 0; f_count := zlen (r1 :: rs1); f_hdr := hdr_of b |} in Hn.
-  assert (HF : frameF0 b more = {| f_bs := batch_payload comp b ++ batches_bytes more; f_base := 0; f_count := zlen (r1 :: rs1); f_hdr := hdr_of b |})
-    by (unfold frameF0; rewrite Hrs1; reflexivity).
-  rewrite HF, Hn, <- HF.
-  rewrite (m_v2_first b r1 rs1 more Hb Hrs1).
-  rewrite (m_run_mid more b (is_comp b) rs1 [r1]); [| exact Hmore | exact Hb | exact Hrs1 | discriminate
-                                                    | unfold outs; lia ].
+  rewrite Hn. rewrite (m_v2_first b r1 rs1 more Hb Hrs1).
+  rewrite (m_run_mid more b (is_comp b) rs1 [r1]); [| exact Hmore | exact Hb | exact Hrs1 | discriminate | lia ].
   reflexivity.
 Qed.
 
